@@ -301,3 +301,53 @@ Definition v_ok (c : vcase) : bool := true.
 Definition kz (k : string) (v : Z) : string * Z := (k, v).
 Definition ks (k : string) (v : string) : string * string := (k, v).
 Definition tp (nid : string) (p : plan) : string * plan := (nid, p).
+
+(* ---------- stream "realloc": Plugin.CalculateRealloc ---------- *)
+Inductive robs := RErr (e : option rerr2) | ROk (ep : eparams) (delta newr : wres) | RPanic (r : option reason) | RTimeout.
+Record rcase := mkR {
+  r_info : node_info; r_base : Z; r_maxshare : Z; r_origin : wres; r_raw : wreq;
+  r_order : list string; r_obs : robs }.
+Definition r_model (c : rcase) : outcome (rerr2 + realloc_result) :=
+  calculate_realloc_chk (r_info c) (r_base c) (r_maxshare c) (r_origin c) (r_raw c) (r_order c)
+                        (default_fuel (realloc_info (r_info c) (r_origin c))).
+Definition rerr2_opt_eqb (e : rerr2) (o : option rerr2) : bool :=
+  match o with Some e' => rerr2_eqb e e' | None => false end.
+Definition r_agree (c : rcase) : bool :=
+  is_perm (r_order c) (numa_nodes (r_info c)) &&
+  match r_model c, r_obs c with
+  | Ok (inl e), RErr o => rerr2_opt_eqb e o
+  | Ok (inr rr), ROk ep d n => eparams_eqb (rr_engine rr) ep && wres_eqb (rr_delta rr) d && wres_eqb (rr_new rr) n
+  | Panic r, RPanic o => reason_opt_eqb r o
+  | OutOfFuel, RTimeout => true
+  | Ambiguous, ROk _ _ _ => true
+  | _, _ => false
+  end.
+(* C06 on realloc: no crash, no non-termination *)
+Definition r_ok_c06 (c : rcase) : bool :=
+  if wf_info (r_info c) && validate_ok (r_info c) && valid_config (r_base c) (r_maxshare c) then
+    match r_obs c with RErr _ | ROk _ _ _ => true | _ => false end
+  else true.
+(* C04 on realloc: the new placement fits the node once the origin has been given back *)
+Definition r_ok_c04 (c : rcase) : bool :=
+  let info' := realloc_info (r_info c) (r_origin c) in
+  if valid_node info' && (0 <? r_base c) then
+    match r_obs c with
+    | ROk ep d n => match wr_cpumap n with
+                    | [] => true
+                    | _ => c04_plans_ok info' (wr_mem_req n) [(wr_numanode n, wr_cpumap n)]
+                    end
+    | _ => true
+    end
+  else true.
+(* C05 on realloc: the pieces of a bound result are the recorded request to the nearest piece *)
+Definition r_ok_c05 (c : rcase) : bool :=
+  if 0 <? r_base c then
+    match r_obs c with
+    | ROk ep d n => match wr_cpumap n with
+                    | [] => true
+                    | m => c05_plan_ok (r_base c) (pieces_request (r_base c) (wr_cpu_req n)) m
+                           && smap_eqb Z.eqb (ep_cpumap ep) m
+                    end
+    | _ => true
+    end
+  else true.
